@@ -66,12 +66,17 @@ def _detie(arrs):
     return out
 
 
+def _norm_code(c):
+    """an extension status code (outside 100..699) is no 1xx and no 2xx: it ends a transaction like a failure response"""
+    return c if 100 <= c <= 699 else 699
+
+
 def _case(cid, kind, rel, arrs, horizon=None):
     arrs = _detie(arrs)
     last = max([a[0] for a in arrs] + [0])
     h = horizon or (max(last, TO) + 70000)
     case = [cid, "c05", kind, str(rel), ",".join("%d:%d:%s" % a for a in arrs), str(h), ""]
-    te = _end_time(kind, bool(rel), [(a[0], a[1]) for a in arrs])
+    te = _end_time(kind, bool(rel), [(a[0], _norm_code(a[1])) for a in arrs])
     probes = []
     if te is not None and te > 2:
         probes = [te - 1, te + 1]
@@ -90,6 +95,10 @@ def gen_cases(rng, tier):
             for t in sorted(set(pts)):
                 for code in (180, 200, 486):
                     cases.append(_case("one%d" % n, kind, rel, [(t, code, "a")])); n += 1
+            # extension status codes (RFC 3261 allows any three digits): no 1xx, no 2xx - they end the transaction like a failure
+            for t in (200, 700, 8000):
+                for code in (700, 999, 99):
+                    cases.append(_case("ext%d" % n, kind, rel, [(t, code, "a")])); n += 1
             # provisional then final / silence
             for t1 in (G[::5] if tier == "quick" else G[::2]):
                 cases.append(_case("prov%d" % n, kind, rel, [(t1, 183, "a")])); n += 1
@@ -201,7 +210,7 @@ def _parse(case):
     for a in case[4].split(","):
         if a:
             p = a.split(":")
-            arrs.append((max(0, int(p[0]) - _linger(case)), int(p[1])))
+            arrs.append((max(0, int(p[0]) - _linger(case)), _norm_code(int(p[1]))))
     return case[2], case[3] == "1", arrs, int(case[5])
 
 
